@@ -196,9 +196,23 @@ EXTRA_PROPOSED = {
  'C13': dict(tech='; truth-table walks over the comparisons that choose the %g notation and the renormalisation',
              text=' %g chooses the exponent form exactly when X < -4 or X >= P with P >= 1 (R-GSTYLE); the integer part is renormalised from '
                   '>= base on (R-RENORM).'),
- 'C09': dict(text=' The 16-bit counts are used unsigned both as loop bounds and as block lengths; a reader that accumulates into its target '
-                  'is handed a fresh object per value (R-FRESH).'),
- 'C11': dict(text=' A character is consumed as a digit only if its value is below the base, also after an overflow (end pointer).'),
+ 'C09': dict(drop=[' Equality of the decoded value (element order, container insertion semantics) is not decided.'],
+             tech='; writer-then-reader interpretation on concrete shapes with symbolic contents (libstdc++ interpreted from its IR)',
+             text=' The 16-bit counts are used unsigned both as loop bounds and as block lengths; a reader that accumulates into its target '
+                  'is handed a fresh object per value (R-FRESH). c09_roundtrip: for 85 writer/reader pairs of both archive families '
+                  '(scalars, strings, vectors, maps, pairs, tuples, reflectable structs, nested to depth 3, lengths 0..3 at every level) the '
+                  'reader rebuilds the written value symbol by symbol, leaves the cursor exactly behind its encoding, reads nothing outside '
+                  'it, values written in sequence come back in order, and counted blocks deliver the first min(len, max) bytes.'),
+ 'C11': dict(drop=[], tech='; concrete-control / symbolic-content interpretation of qsort and bsearch with the comparator as a weak-order oracle',
+             text=' A character is consumed as a digit only if its value is below the base, also after an overflow (end pointer). '
+                  'c11_order: for nmemb 0..5 (thorough ..6), element sizes 1/3/4/8, every weak order of the keys and every pivot choice, '
+                  'qsort leaves a permutation of whole elements that is sorted and terminates; bsearch (n 0..7) returns an element '
+                  'comparing equal iff one exists with at most floor(log2 n)+2 comparisons; atol/atoi return the decimal value of texts '
+                  'up to 18 / 9 digits.'),
+ 'C07': dict(tech='; value analysis with symbolic digits and an exact Euclidean split for division by the constant base',
+             text=' c07_roundtrip: for bases 2/8/10/16/36 and values of 1..4 symbolic digits (plus 0, -1, minimum and maximum of each '
+                  'type) every renderer leaves sign, digits most significant first and terminator; every parser returns the signed digit '
+                  'sum and the stopper position; parse(render(v)) == v for every pair; the debug printers emit exactly the digits.'),
  'C12': dict(text=' igris_atof64 adds the exponent to the fraction-digit scale; local_pow accumulates at the width of its result.'),
  'C16': dict(text=' plan(tim, start, interval) on a pending timer moves it to the place of its new deadline; signed scenarios state the '
                   'representability of deadlines and elapsed times explicitly (a wrap-safe due test is decided as well).'),
